@@ -1,4 +1,5 @@
 import os
+import struct
 import logging
 import asyncio
 import sqlite3
@@ -748,6 +749,13 @@ class Database(SQLiteMixin):
             'height': tx.height, 'position': tx.position, 'is_verified': tx.is_verified
         }, 'txid = ?', (tx.id,)))
 
+    @staticmethod
+    def _has_known_script(txo) -> bool:
+        try:
+            return txo.script.template is not None
+        except (ValueError, struct.error):  # matches no template / cannot even be tokenized
+            return False
+
     def _transaction_io(self, conn: sqlite3.Connection, tx: Transaction, address, txhash):
         conn.execute(*self._insert_sql('tx', self.tx_to_row(tx), replace=True)).fetchall()
 
@@ -756,7 +764,7 @@ class Database(SQLiteMixin):
         for txi in tx.inputs:
             if txi.txo_ref.txo is not None:
                 txo = txi.txo_ref.txo
-                if txo.has_address and txo.get_address(self.ledger) == address:
+                if self._has_known_script(txo) and txo.has_address and txo.get_address(self.ledger) == address:
                     is_my_input = True
                     conn.execute(*self._insert_sql("txi", {
                         'txid': tx.id,
@@ -766,6 +774,8 @@ class Database(SQLiteMixin):
                     }, ignore_duplicate=True)).fetchall()
 
         for txo in tx.outputs:
+            if not self._has_known_script(txo):
+                continue  # third-party output whose script matches no template: never ours, nothing to store
             if txo.script.is_pay_pubkey_hash and (txo.pubkey_hash == txhash or is_my_input):
                 conn.execute(*self._insert_sql(
                     "txo", self.txo_to_row(tx, txo), ignore_duplicate=True
